@@ -256,6 +256,19 @@ class Ctx:
                     continue
         return None
 
+    @staticmethod
+    def _observed_only(problems, label):
+        """an oracle verdict against the real code that was observed during the search but does not come back when the
+        same case is executed again (here, and alone in a fresh interpreter): the harness is deterministic, so the outcome
+        depends on state outside the case - memory addresses, process-wide counters, what earlier cases left behind.  The
+        observation is reported as what it is, a violation that was seen, with that remark."""
+        note = (' [observed during the search' + (f' ({label})' if label else '') + '; the same case executed again - in this process and alone in a fresh '
+                'interpreter - did not show it: the outcome depends on state outside the case (memory addresses, process-wide counters, earlier calls)]')
+        out = []
+        for p in (problems or [Problem('not-reproducible', 'a failure was observed during the search', {})]):
+            out.append(Problem(p.sig, p.detail + note, dict(p.data, reproduced=False)))
+        return out
+
     def violation(self, case, problems):
         self.rec.violations.append({'case': case, 'problems': [p.to_json() for p in problems]})
 
@@ -307,7 +320,7 @@ class Ctx:
                     st['first_fail'] = time.time()
                 size = len(jdump(case))
                 if st['best_size'] is None or size < st['best_size']:
-                    st['best'], st['best_size'] = case, size
+                    st['best'], st['best_size'], st['best_problems'] = case, size, un
                 raise AssertionError(un[0].sig)
 
         try:
@@ -334,8 +347,7 @@ class Ctx:
             if un:
                 self.violation(case, un)
             else:
-                self.rec.harness_errors.append(f'{label}: failing case did not reproduce outside Hypothesis (neither in this '
-                                               f'process nor in a fresh interpreter): ' + jdump(case)[:1500])
+                self.violation(case, self._observed_only(st.get('best_problems'), label))
 
 
     # ---- Hypothesis stateful driver --------------------------------------------------------------
@@ -356,12 +368,19 @@ class Ctx:
         def stop():
             return st['harness'] is not None or (st['first_fail'] is not None and time.time() - st['first_fail'] > shrink_budget_s)
 
-        def fail(case):
+        def fail(case, observed=None):
+            # observed: the Bad the machine caught (or a (sig, detail) pair) - kept in case the history does not reproduce
             if st['first_fail'] is None:
                 st['first_fail'] = time.time()
             size = len(jdump(case))
             if st['best_size'] is None or size < st['best_size']:
                 st['best'], st['best_size'] = case, size
+                if isinstance(observed, Bad):
+                    st['best_problems'] = [Problem(observed.sig, observed.detail, dict(getattr(observed, 'data', {}) or {}))]
+                elif observed:
+                    st['best_problems'] = [Problem(observed[0], observed[1], {})]
+                else:
+                    st['best_problems'] = None
 
         def count(case, result=None):
             # result: the Result the machine computed while running (saves re-executing the history)
@@ -404,8 +423,7 @@ class Ctx:
             if un:
                 self.violation(case, un)
             else:
-                self.rec.harness_errors.append(f'{label}: failing history did not reproduce outside Hypothesis (neither in this '
-                                               f'process nor in a fresh interpreter): ' + jdump(case)[:1500])
+                self.violation(case, self._observed_only(st.get('best_problems'), label))
 
 
 # ------------------------------------------------------------------------------------------------
